@@ -33,7 +33,7 @@ def tokenize(lines):
         ("SKIP", r"\s+"),
         (
             "OTHER",
-            r"[,:;\-\?\+*%\[\]/\(\)]|<<|>>|!=|==|<=|>=|>|<|=|{|}|&|\^|\|",
+            r"[,:;\-\?\+*%\[\]/\(\)~]|<<|>>|!=|==|<=|>=|>|<|=|{|}|&|\^|\|",
         ),
     ]
     tok_re = "|".join(f"(?P<{name}>{pat})" for name, pat in tok_spec)
@@ -380,9 +380,8 @@ class Reader:
             src = self.parse_value_ref(ty=ir.BlobDataTyp(1, 1))
             assert ty is ir.ptr
             ins = ir.AddressOf(src, name)
-        elif self.peek == "-":
-            self.consume("-")
-            operation = "-"
+        elif self.peek in ir.Unop.ops:
+            operation = self.consume(self.peek)[1]
             a = self.parse_value_ref()
             ins = ir.Unop(operation, a, name, ty)
         else:  # pragma: no cover
